@@ -11,7 +11,8 @@ def handlers : List (List Sexp → Option Sexp) :=
     Driver.diagramHandle,
     Driver.trimArityHandle,
     Driver.actionGateHandle,
-    Driver.threadsHandle ]
+    Driver.threadsHandle,
+    Driver.regexHandle ]
 
 def dispatch (line : String) : String :=
   match Sexp.parseAll line with
